@@ -125,6 +125,9 @@ type lexer struct {
 	done chan struct{} // Closed by the parser when it stops reading tokens.
 
 	readErr error // The error that cut the input short, if any.
+
+	aborted bool          // Set once a token could not be delivered: the parser is gone.
+	exited  chan struct{} // Closed when tokenize returns.
 }
 
 // nextToken returns the next token emitted by the lexer.
@@ -140,12 +143,14 @@ func (l *lexer) nextToken() token {
 // tokenize kicks things off.
 func (l *lexer) tokenize() {
 	verifEvent("lex.start", l, "")
+	defer close(l.exited)
 	defer verifEvent("lex.exit", l, "")
 	if l.readErr != nil {
 		l.errorf("unable to read template: %s", l.readErr)
 		return
 	}
-	for l.state = lexData; l.state != nil; {
+	// Once the parser has stopped reading there is nothing to tokenise for.
+	for l.state = lexData; l.state != nil && !l.aborted; {
 		l.state = l.state(l)
 	}
 }
@@ -154,7 +159,7 @@ func (l *lexer) tokenize() {
 func newLexer(input io.Reader) *lexer {
 	// TODO: lexer should use the reader.
 	i, err := ioutil.ReadAll(input)
-	return &lexer{0, 0, 1, 0, string(i), make(chan token), nil, modeNormal, token{}, 0, 0, false, make(chan struct{}), err}
+	return &lexer{0, 0, 1, 0, string(i), make(chan token), nil, modeNormal, token{}, 0, 0, false, make(chan struct{}), err, false, make(chan struct{})}
 }
 
 func (l *lexer) next() (val string) {
@@ -217,6 +222,7 @@ func (l *lexer) send(tok token) {
 	select {
 	case l.tokens <- tok:
 	case <-l.done:
+		l.aborted = true
 	}
 }
 
